@@ -679,17 +679,19 @@ func (t *ftr) call(x *ast.CallExpr) string {
 		t.fail("call of %s", full)
 	}
 	rk := kindOf(t.typeOf(x))
+	if rk == kOpaque {
+		// constructors of values that are not modelled are abstracted, never translated
+		return t.abstractValue(x)
+	}
 	if key != "" {
-		if _, ok := t.fg.decls[key]; ok && t.fg.isListed(key) {
+		if _, ok := t.fg.decls[key]; ok {
+			// a function of this package: translated on demand (memoised), emitted before the caller
 			term, sig := t.callTerm(x)
 			if len(sig.kinds) != 1 {
 				t.fail("multi-value call in a single-value context")
 			}
 			return t.hoist(term)
 		}
-	}
-	if rk == kOpaque {
-		return t.abstractValue(x)
 	}
 	t.fail("call of %s", types.ExprString(x.Fun))
 	return ""
